@@ -36,7 +36,7 @@ Coverage table (statement clause / quantifier dimension -> where it is explored 
                                                      unrelated top-level directories (forests) in Recursive.tla.
   recursive: sub-packages with Go files              9 directory kinds at any depth <= 3 (4/5 in "deep"): test-only, empty, tagged-only,
                                                      testdata, _x, .x, vendor, nested module (the last six "either"); container packages
-                                                     (recursive package without Go files: known finding D19).
+                                                     (recursive package without Go files: was defect D19, fixed by b2c99c5; reverting it is a standing mutant).
   exclusion regex, both levels                       9 lists (single, multi-entry with inline flags / anchors / alternation), top x package
                                                      x both; names that are string prefixes of a sibling ("a"/"ax"), upper-case names.
   nearest configured recursive ancestor              <= 3 configured packages anywhere, rec T/F/unset at both levels, explicit sub-packages,
